@@ -86,6 +86,10 @@ pub enum Op {
         quota: usize,
         pkts: usize,
         initial: bool,
+        /// the first packet of every segment carries nothing that is in flight (an ACK-only
+        /// packet): `constraints.commit(len, false)`, no congestion quota consumed
+        #[serde(default)]
+        ack_first: bool,
     },
     /// `Path::grant_anti_amplification`
     Grant,
@@ -305,12 +309,14 @@ impl Sys {
     }
 
     /// `Burst::load_spaces` with `pkts` packets wanting to go into this segment.
+    #[allow(clippy::too_many_arguments)]
     fn load_spaces(
         &self,
         buffer: &mut [u8],
         cc: &mut Cc,
         pkts: usize,
         initial: bool,
+        ack_first: bool,
     ) -> Result<Segment, BurstError> {
         let origin = buffer.len();
         let (mut constraints, credit_seen) = self.assembler(cc)?;
@@ -324,14 +330,20 @@ impl Sys {
                 signals |= Signals::CONGESTION; // PacketWriter::new_* refuses the buffer
                 continue;
             }
-            let want = if k + 1 < pkts {
+            let ack_only = ack_first && k == 0;
+            let want = if ack_only {
+                // an ACK-only packet: small, not in flight
+                MIN_PACKET.max(30).min(constrained.len())
+            } else if k + 1 < pkts {
                 (constrained.len() / 2).max(MIN_PACKET)
             } else {
                 constrained.len()
             };
             constrained[..want].fill(0xA0 + k as u8);
-            constraints.commit(want, true);
-            cc.on_pkt_sent(want);
+            constraints.commit(want, !ack_only);
+            if !ack_only {
+                cc.on_pkt_sent(want);
+            }
             written += want;
             if k == 0 && initial {
                 loaded_initial = true;
@@ -364,13 +376,14 @@ impl Sys {
         quota: usize,
         pkts: usize,
         initial: bool,
+        ack_first: bool,
     ) -> Result<Vec<Segment>, BurstError> {
         let mut buffers: Vec<Vec<u8>> = vec![vec![0u8; MTU]; segments];
         let mut cc = Cc { quota };
         let mut out: Vec<Segment> = Vec::with_capacity(segments);
         for buffer in buffers.iter_mut() {
             let loaded = self
-                .load_spaces(&mut buffer[..MTU], &mut cc, pkts, initial)
+                .load_spaces(&mut buffer[..MTU], &mut cc, pkts, initial, ack_first)
                 .or_else(|e| match e {
                     BurstError::Signals(s) => self.load_fallback(&cc).map_err(|e| match e {
                         BurstError::Signals(s2) => BurstError::Signals(s | s2),
@@ -508,12 +521,12 @@ impl Sys {
                     self.expect_woken("abort", &mut fails);
                 }
             }
-            Op::Burst { segments, quota, pkts, initial } => {
+            Op::Burst { segments, quota, pkts, initial, ack_first } => {
                 if self.parked.is_some() || self.sender_done {
                     // the sending task is suspended / has ended: it cannot run a burst
                     self.note(|| "burst: the sending task is not runnable".into());
                 } else {
-                    match self.burst(segments, quota, pkts, initial) {
+                    match self.burst(segments, quota, pkts, initial, ack_first) {
                         Ok(segs) => {
                             // Path::send_packets
                             let total: usize = segs.iter().map(|s| s.len).sum();
@@ -670,7 +683,11 @@ impl System for Sys {
                 for &quota in &self.cfg.quotas {
                     for &pkts in &self.cfg.pkts {
                         for &initial in &self.cfg.initial {
-                            v.push(Op::Burst { segments, quota, pkts, initial });
+                            v.push(Op::Burst { segments, quota, pkts, initial, ack_first: false });
+                            // an ACK-only packet coalesced in front of the others
+                            if pkts >= 2 {
+                                v.push(Op::Burst { segments, quota, pkts, initial, ack_first: true });
+                            }
                         }
                     }
                 }
@@ -819,7 +836,7 @@ pub fn run(args: &Args) -> i32 {
         }
     }
     let mut cov = stats.coverage(&format!(
-        "BFS to closure over all histories of rcvd(n in {:?}) (at most {} arrivals), burst(segments in {:?}, quota in {:?}, packets per segment in {:?}, initial-bearing in {:?}; mtu {MTU}), grant, abort on the real AntiAmplifier + Constraints + ArcSendWaker; a history is not extended past its first violation",
+        "BFS to closure over all histories of rcvd(n in {:?}) (at most {} arrivals), burst(segments in {:?}, quota in {:?}, packets per segment in {:?}, initial-bearing in {:?}, with and without an ACK-only (not in flight) first packet; mtu {MTU}), grant, abort on the real AntiAmplifier + Constraints + ArcSendWaker; a history is not extended past its first violation",
         cfg.sizes, cfg.max_arrivals, cfg.segments, cfg.quotas, cfg.pkts, cfg.initial
     ));
     cov.extra.insert(
